@@ -960,7 +960,8 @@ defvjp(anp._array_from_scalar_or_array, array_from_scalar_or_array_gradmaker, ar
 @primitive
 def untake(x, idx, vs):
     if isinstance(idx, list) and (len(idx) == 0 or not isinstance(idx[0], slice)):
-        idx = onp.array(idx, dtype="int64")
+        # an empty list must become an integer index; a list of bools must stay a boolean mask
+        idx = onp.array(idx, dtype="int64") if len(idx) == 0 else onp.array(idx)
 
     def mut_add(A):
         onp.add.at(A, idx, x)
